@@ -1,8 +1,9 @@
 (* C11 - canonical JSON output is the OLPC canonical form of the value, and only of it.
    Pinned statements only; proofs are in Proofs/CJsonP.v. *)
 From ToughV Require Export Model.Base Model.Json Model.CJson.
-From ToughV Require Import Proofs.BaseP Proofs.CJsonP.
-From Coq Require Import Permutation Sorted.
+From ToughV Require Import Proofs.BaseP.
+From ToughV Require Export Proofs.CJsonP.
+From Coq Require Export Permutation Sorted.
 
 (* what is assumed of Unicode normalisation (a parameter of model and specification): it maps the
    empty string to itself, and it neither touches nor creates the characters JSON escapes
